@@ -82,6 +82,18 @@ func main() {
 			}
 			sim.OnApply = func(_ consensus.State, _ types.Block, au consensus.ApplyUpdate) {
 				walk(au.SiacoinElementDiffs(), au.SiafundElementDiffs(), au.FileContractElementDiffs(), au.V2FileContractElementDiffs(), 1)
+				// a contract resolved once creates either its valid or its missed outputs, never both
+				created := map[types.SiacoinOutputID]bool{}
+				for _, d := range au.SiacoinElementDiffs() {
+					if d.Created {
+						created[d.SiacoinElement.ID] = true
+					}
+				}
+				for _, d := range au.FileContractElementDiffs() {
+					if d.Resolved && created[d.FileContractElement.ID.ValidOutputID(0)] && created[d.FileContractElement.ID.MissedOutputID(0)] {
+						c.Violation("history/contract-resolved-twice-in-block", fmt.Sprintf("v1 contract %v was resolved twice in one accepted block: both its valid and its missed proof outputs were created", d.FileContractElement.ID), nil)
+					}
+				}
 			}
 			sim.OnRevert = func(_ consensus.State, _ types.Block, ru consensus.RevertUpdate) {
 				walk(ru.SiacoinElementDiffs(), ru.SiafundElementDiffs(), ru.FileContractElementDiffs(), ru.V2FileContractElementDiffs(), -1)
@@ -170,6 +182,9 @@ func main() {
 		{"v2-contract", "v2only", []string{"form2", "rev2", "res2"}, 3, 2, []chain.AbsOut{{600000, "B"}}},
 		{"v1-payments", "v1only", []string{"pay", "sf"}, 2, 2, []chain.AbsOut{{1199, "B"}}},
 		{"v2-payments", "v2only", []string{"pay", "sf"}, 2, 2, []chain.AbsOut{{1199, "B"}}},
+		// outputs behind unlock conditions that need no signature at all (nothing but the spent checks protects them)
+		{"v1-nosig", "v1only", []string{"pay", "sf"}, 2, 2, []chain.AbsOut{{1199, "Z"}}},
+		{"v2-nosig", "v2only", []string{"pay", "sf"}, 2, 2, []chain.AbsOut{{1199, "Z"}}},
 		{"mixed-payments", "mixed", []string{"pay"}, 3, 2, []chain.AbsOut{{1199, "B"}}},
 	}
 	if c.Thorough {
@@ -185,6 +200,11 @@ func main() {
 		}
 		cfg := chain.BaseConfig(p)
 		cfg.Addrs = []string{"B"}
+		if strings.HasSuffix(f.name, "nosig") {
+			cfg.Addrs = []string{"Z"}
+			p.GenSF = []chain.AbsOut{{7000, "Z"}, {3000, "Z"}}
+			cfg.P = p
+		}
 		cfg.Templates, cfg.Defects = f.tpl, []string{"reuse", "intx"}
 		cfg.Pay1, cfg.Sizes, cfg.RevShifts, cfg.FormRH = []int{256411}, []int{200}, []int{24}, [][2]int{{250024, 25}}
 		cfg.PayAmts, cfg.Fees, cfg.SFSplits = []int{599}, []int{0}, []int{3000}
